@@ -15,11 +15,12 @@ SM = "StorageManager."
 PROPS = {
     "C13": {
         "verus": [("tree_node", [TN + "determine_node_to_get", TN + "get_appropriate_tree_node_from_storage", "TreeNode.get_from_storage", "TreeNode.get_child_label", "TreeNode.get_child_node"]),
-                  ("directory_lookup", ["Directory.poll_for_azks_changes", "Directory.lookup", "Directory.batch_lookup", "Directory.key_history__head", "Directory.key_history__tail", "Directory.audit", "Azks.get_latest_epoch"]),
+                  ("directory_lookup", ["Directory.poll_for_azks_changes", "Directory.lookup", "Directory.batch_lookup", "Directory.key_history__head", "Directory.key_history__tail",
+                                        "Directory.create_single_update_proof", "Directory.get_epoch_hash", "Directory.audit", "Azks.get_latest_epoch", "lemma_the_info"]),
                   ("azks_audit", ["Azks.get_root_hash_safe", "Azks.get_root_hash", "Directory.get_epoch_hash", "Azks.get_latest_epoch", "NodeLabel.root", "NodeLabel.new"])],
         "search": True,
         "always_search": True,
-        "scope": "partial: one iteration of the change poller follows the protocol exclusive lock -> flush -> reload of the epoch record -> change signal (the flush requires the exclusive lock to have been taken, the signal requires flush and reload: knowledge tokens of one loop iteration); lookup / batch_lookup / key_history / audit pair their proofs with the epoch and root hash of the ONE epoch record they read; the as-of read of a node record never returns a node newer than the epoch asked for (so no answer stitches a newer node into an older epoch); a child a node names but whose record holds only newer versions (reader behind storage) is an error for get_child_node, never an absent child (else the proof walk would return a proof that misses a subtree); the read returns the latest "
+        "scope": "partial: one iteration of the change poller follows the protocol exclusive lock -> flush -> reload of the epoch record -> change signal (the flush requires the exclusive lock to have been taken, the signal requires flush and reload: knowledge tokens of one loop iteration); reads of the epoch record are modelled as NONDETERMINISTIC (a publish may complete between two of them), and lookup / batch_lookup / key_history (head, every update proof, tail) / audit / get_epoch_hash take the epoch, the state filter, every tree proof and the root hash of an answer from ONE value of that record (never a proof stitched together from two epochs, whatever the interleaving with publishes); the as-of read of a node record never returns a node newer than the epoch asked for (so no answer stitches a newer node into an older epoch); a child a node names but whose record holds only newer versions (reader behind storage) is an error for get_child_node, never an absent child (else the proof walk would return a proof that misses a subtree); the read returns the latest "
                  "node whenever it is not newer, and otherwise only NotFound; get_epoch_hash answers (e, h) with e the latest epoch of the ONE epoch record it read and h the root hash of the "
                  "root node as of that very e (get_root_hash_safe refuses any epoch other than the record's). Interleavings, the change poller and the cache are not decided.",
         "trusted": ["T6 async functions are verified under single-task sequential semantics; a storage read is a function of (manager, key) during one call",
